@@ -102,7 +102,8 @@ def make_semantics(kind, actrule='*'):
                            'raiseTypeError': TypeError, 'raiseAttributeError': AttributeError,
                            'raiseIndexError': IndexError, 'raiseStopIteration': StopIteration,
                            'raiseAssertionError': AssertionError, 'raiseRuntimeError': RuntimeError,
-                           'raiseLookupError': LookupError}[kind]
+                           'raiseLookupError': LookupError, 'raiseParseError': __import__('tatsu.exceptions', fromlist=['x']).ParseError,
+                           'raiseGrammarError': __import__('tatsu.exceptions', fromlist=['x']).GrammarError}[kind]
                     raise exc('boom: bad arguments')
                 return ast
             return ast
@@ -359,7 +360,7 @@ def run_matrix_case(case):
 
 SEM_KINDS = ['none', 'id', 'tag', 'tagdefault', 'failb', 'raise', 'raiseKeyError', 'raiseValueError', 'raiseTypeError',
              'raiseAttributeError', 'raiseIndexError', 'raiseStopIteration', 'raiseAssertionError', 'raiseRuntimeError',
-             'raiseLookupError']
+             'raiseLookupError', 'raiseParseError', 'raiseGrammarError']
 
 
 def make_semantics2(kind, rules, params=None, shape=None):
@@ -384,7 +385,10 @@ def make_semantics2(kind, rules, params=None, shape=None):
 
     excs = {'raise': Custom, 'raiseKeyError': KeyError, 'raiseValueError': ValueError, 'raiseTypeError': TypeError,
             'raiseAttributeError': AttributeError, 'raiseIndexError': IndexError, 'raiseStopIteration': StopIteration,
-            'raiseAssertionError': AssertionError, 'raiseRuntimeError': RuntimeError, 'raiseLookupError': LookupError}
+            'raiseAssertionError': AssertionError, 'raiseRuntimeError': RuntimeError, 'raiseLookupError': LookupError,
+            # TatSu's own exception types that are NOT parse failures: raised by an action they are "any other exception" too
+            'raiseParseError': __import__('tatsu.exceptions', fromlist=['x']).ParseError,
+            'raiseGrammarError': __import__('tatsu.exceptions', fromlist=['x']).GrammarError}
 
     def hit(ast):
         return ast == 'b' or (isinstance(ast, dict) and 'b' in list(ast.values()))
